@@ -11,6 +11,7 @@ import ChaiVerif.Drv.Pos
 import ChaiVerif.Drv.Rc
 import ChaiVerif.Drv.Tls
 import ChaiVerif.Drv.Prec
+import ChaiVerif.Drv.Ws
 open ChaiVerif.Drv
 
 def main (args : List String) : IO UInt32 := do
@@ -29,6 +30,7 @@ def main (args : List String) : IO UInt32 := do
   | ["rc"] => lineLoop rcLine; return 0
   | ["tls"] => lineLoop tlsLine; return 0
   | ["prec"] => lineLoop precLine; return 0
+  | ["ws"] => lineLoop wsLine; return 0
   | ["chai-tree"] => lineLoop (fun l => (chaiLine ("tree " ++ l)).replace "\n" " "); return 0
   | ["arith-abi"] => (abiLines.forM IO.println); return 0
   | _ => IO.eprintln "usage: chaimodel <mode>"; return 2
